@@ -161,6 +161,7 @@ type schedEngine struct {
 	cancelRet     int
 	enters        map[string]int
 	exits         map[string]string // leaf -> outcome
+	exitCount     map[string]int
 	maxInflight   int
 	faultsFired   int
 	nstages       int
@@ -209,6 +210,9 @@ func (e *schedEngine) depSatisfied(d *StageSpec) (bool, string) {
 	}
 	if d.Nested == nil {
 		out, ok := e.exits[d.Name]
+		if ok && e.enters[d.Name] > e.exitCount[d.Name] {
+			return false, fmt.Sprintf("%s is running (execution %d of it has not returned)", d.Name, e.enters[d.Name])
+		}
 		if !ok {
 			if e.enters[d.Name] > 0 {
 				return false, d.Name + " is still running"
@@ -302,6 +306,7 @@ func (e *schedEngine) onEvent(ev *Event) {
 		e.stageReleased[ev.Subject] = true
 	case "run-exit":
 		e.exits[ev.Subject] = ev.Detail
+		e.exitCount[ev.Subject]++
 	case "schedule-return":
 		e.returned = true
 		e.retErr = ev.Detail
@@ -441,6 +446,7 @@ func RunSchedWorld(c *Ctl, prof *SchedProfile, g *GraphSpec, res *RunResult) {
 		byName:        map[string]*StageSpec{},
 		enters:        map[string]int{},
 		exits:         map[string]string{},
+		exitCount:     map[string]int{},
 		stageReleased: map[string]bool{},
 	}
 	e.index(g, nil)
